@@ -17,7 +17,7 @@ from ..runner import digest_of
 ID = "C18"
 LEVEL = "exploration"
 RULE = (
-    "run = 40 histories; history = generated scaffold (fragments of several contigs on strands +,-,?; gaps first/last/consecutive; 1-bp rows) "
+    "run = 400 histories; history = generated scaffold (fragments of several contigs on strands +,-,?; gaps first/last/consecutive; 1-bp rows) "
     "+ bait interval (any strand, tags) -> real IndexedAssembly.find_overlaps -> up to 12 operations drawn from "
     "{discard_start, discard_end, trim_large_overhangs(e), trim_fragment(first|last, keep_start, keep_end)} applied to the real "
     "OverlapResult while a reference model (first/last source row index + bases cut from either end) is stepped alongside; after "
@@ -38,8 +38,8 @@ _TAGSETS = [(), ("Painted",), ("Painted", "Hap1"), ("Haplotig",), ("Painted", "X
 
 def plan(tier):
     if tier == "thorough":
-        return {"runs": 800000, "chunk": 500, "wall_budget": 3300, "resample": 50}
-    return {"runs": 16000, "chunk": 100, "wall_budget": 600, "resample": 20}
+        return {"runs": 80000, "chunk": 50, "wall_budget": 3300, "resample": 20}
+    return {"runs": 1600, "chunk": 10, "wall_budget": 600, "resample": 8}
 
 
 # ---------------------------------------------------------------------------
@@ -531,9 +531,9 @@ def pipeline_monitor(rng):
 # runner entry points
 # ---------------------------------------------------------------------------
 
-HIST_PER_RUN = 40
+HIST_PER_RUN = 400
 DISCARD_UNITS_PER_RUN = HIST_PER_RUN  # discards are counted per history, not per run
-PIPE_PER_RUN = 2
+PIPE_PER_RUN = 20
 
 
 def run_one(run_seed, i, tier):
